@@ -261,6 +261,34 @@ func runC15(c *Ctx) {
 	untrustedStructPkgs = saved
 	inconsistentKeys(c, extractionEntries)
 	resliceReuseRule(c, c.reachDecls("work-list-not-aliased", extractionEntries...))
+	// the loops of the traversals and of the indexes they walk skip an element only for a stated
+	// reason (an index that silently drops parallel edge records loses reachable nodes)
+	const RL = "loop-totality"
+	c.rule(RL, loopRuleText)
+	c.loopTotality(RL, pkgFilter(c.reachDecls(RL, extractionEntries...), "sbom.(*NodeList).", "sbom.(*Edge).AddDestinationById"), loopPolicies, commonSkips)
+	// an extraction reads the graph it is given: writing it changes what the next extraction sees
+	const RW = "no-operand-write"
+	c.rule(RW, "the extraction functions write no memory reachable from their receiver (origin dataflow with callee summaries)")
+	o := newOrigins(c.P)
+	for _, n := range extractionEntries {
+		fn := c.P.Func(n)
+		if fn == nil {
+			continue
+		}
+		var w []mutation
+		if ss := o.sums[fn]; ss != nil {
+			for _, m := range ss.muts {
+				if m.param == 0 {
+					w = append(w, m)
+				}
+			}
+		}
+		if len(w) > 0 {
+			c.bad(RW, n+"#receiver", c.P.Pos(w[0].pos), describeMuts(c, n, "receiver", w))
+		} else {
+			c.ok(RW, n+"#receiver", c.P.Pos(fn.Pos()), "the queried graph is only read")
+		}
+	}
 }
 
 // traversalGuards: C15-D3/D4.
